@@ -6,6 +6,7 @@ import WrapModel.Model.Parse
 import WrapModel.Model.Dump
 import WrapModel.Lemmas.AgreeLemmas
 import WrapModel.Lemmas.TypeRoundTrip
+import WrapModel.Lemmas.ModuleRoundTrip
 
 namespace WrapModel.Props.C01
 open WrapModel
@@ -57,5 +58,84 @@ example : TyWF exType ∧ NoCont [.word "poses", .sym ")"] ∧
   · simp (config := {decide := true}) [exType, TyWF, TysWF, FirstOK, startsDunder]
   · rw [noCont_iff]; simp (config := {decide := true}) [ansWord]
   · simp (config := {decide := true}) [exType, tyLex, tysLex, tysTailLex, namesLex, identsLex, constLex, sufLex]
+
+/-! ### the round trip for WHOLE MODULES
+
+`Spec.lexemes m` prints a module (forward declarations, includes, classes with constructors / methods / static methods /
+properties / operators / enums / dunder methods, typedefs, functions, enums, variables, nested namespaces; templates with
+instantiation lists; arguments with defaults; pair return types) into lexemes; `Spec.DeclsWF m` is the well-formedness of
+the dialect (DESIGN.md §3): identifiers are not keywords or basic types where the grammar tests for those, flags are
+consistent (`basic`, canonical pair return types), lists the grammar requires to be non-empty are non-empty, constructors
+are named like their class, operators have a valid shape. -/
+
+open Tok Spec in
+/-- **C01 (lexeme level)**: `parse (lexemes m) = m`, everything consumed, for every well-formed module and any sufficient fuel. -/
+theorem C01_module_roundtrip_lexemes (m : Module) (hwf : DeclsWF m) (n : Nat) (hn : declsFuel m ≤ n) :
+    runL (Parse.pmodule n) (lexemes m) = .ok m [] :=
+  pmodule_lex m hwf n hn
+
+open Tok Spec in
+/-- **C01 (character level)**: for every well-formed module `m` and EVERY character string `s` that spells its lexemes —
+    any amount of whitespace, `/* … */` and `// …` comments between any two tokens, none inside a token — the parser
+    returns exactly `m` (names, order, qualifiers, template arguments at any depth, default values verbatim) and what
+    remains is layout only. -/
+theorem C01_module_roundtrip (m : Module) (hwf : DeclsWF m) (n : Nat) (hn : declsFuel m ≤ n) (s : Lex.Src)
+    (hs : Spells (lexemes m) s) : ∃ rest, (Parse.pmodule n).run s = .ok (m, rest) ∧ Spells [] rest :=
+  (lift (Parse.pmodule n) hs).1 _ _ (pmodule_lex m hwf n hn)
+
+open Tok Spec in
+/-- the same for the entry point `parseModule` (whose fuel is the length of the text plus two) -/
+theorem C01_parseModule_roundtrip (m : Module) (hwf : DeclsWF m) (text : String)
+    (hfuel : declsFuel m ≤ text.toList.length + 2) (hs : Spells (lexemes m) text.toList) :
+    Parse.parseModule text = .ok m := by
+  obtain ⟨rest, hrun, _⟩ := C01_module_roundtrip m hwf _ hfuel text.toList hs
+  simp [Parse.parseModule, hrun]
+
+open Tok Spec in
+/-- two spellings of one well-formed module parse to the same tree (C12 as a corollary of C01) -/
+theorem C01_layout_irrelevant (m : Module) (hwf : DeclsWF m) (n : Nat) (hn : declsFuel m ≤ n) (s s' : Lex.Src)
+    (hs : Spells (lexemes m) s) (hs' : Spells (lexemes m) s') :
+    ((Parse.pmodule n).run s).map Prod.fst = ((Parse.pmodule n).run s').map Prod.fst := by
+  obtain ⟨r, h1, _⟩ := C01_module_roundtrip m hwf n hn s hs
+  obtain ⟨r', h2, _⟩ := C01_module_roundtrip m hwf n hn s' hs'
+  simp [h1, h2, Except.map]
+
+/-! non-vacuity: a concrete module with every kind of declaration is well-formed; its lexemes are what one expects -/
+
+def tyS (nss : List String) (name : String) (q : Quals := .plain) : CType := .simple ⟨nss, name, []⟩ q false
+def tyB (name : String) (q : Quals := .plain) : CType := .simple ⟨[], name, []⟩ q true
+
+def exModule : Module :=
+  [.incl "a/b.h",
+   .ns "gtsam"
+    [.fwd true ⟨["gtsam"], "Base", []⟩ none,
+     .cls ⟨none, false, "Pose3", some (.templ [] "Base" [tyS [] "Pose3"] .plain),
+       [.ctor none "Pose3" [],
+        .ctor none "Pose3" [⟨tyS [] "Rot3" ⟨true, .ref⟩, "R", none⟩, ⟨tyS [] "Point3" ⟨true, .ref⟩, "t", some "Point3()"⟩],
+        .static none ⟨tyS [] "Pose3", none, false⟩ "Expmap" [⟨tyS [] "Vector", "v", none⟩],
+        .method (some [⟨"T", [⟨[], "double", []⟩, ⟨["gtsam"], "Point3", []⟩]⟩])
+          ⟨tyB "double", some (tyS [] "Vector"), true⟩ "f"
+          [⟨.templ ["std"] "vector" [tyS [] "Pose3" ⟨false, .shared⟩] ⟨true, .ref⟩, "xs", none⟩] true,
+        .prop ⟨tyB "unsigned char", "flags", none⟩,
+        .enum ⟨.enumClass, "Kind", ["A", "B"]⟩,
+        .op ⟨tyS [] "Pose3", none, false⟩ "*" [⟨tyS [] "Pose3" ⟨true, .ref⟩, "o", none⟩],
+        .dunder "len" []]⟩,
+     .typedef ⟨["std"], "vector", [⟨[], "double", []⟩]⟩ "Vd",
+     .func none ⟨tyB "void", none, false⟩ "g" [⟨tyS ["gtsam"] "Pose3" ⟨false, .raw⟩, "p", some "nullptr"⟩],
+     .enum ⟨.enum, "Color", ["Red"]⟩,
+     .var ⟨tyB "double" ⟨true, .none⟩, "kG", some "-9.81"⟩]]
+
+open Tok Spec in
+example : DeclsWF exModule := by
+  simp (config := {decide := true}) [exModule, DeclsWF, DeclWF, ClassWF, MembersWF, MemberWF, ParentWF, FwdParentWF, TmplWF,
+    TParamsWF, TnsWF, TnWF, ArgsWF, RetWF, EnumWF, TyWF, TysWF, FirstOK, tyS, tyB, tnToTy, tnsToTys, retAsType, startsDunder,
+    Parse.toRet, pairFlag, Parse.ctorNamesOk, Parse.validOperator, CType.typename, Quals.plain, CType.isTempl]
+
+open Tok Spec in
+example : runL (Parse.pmodule (declsFuel exModule)) (lexemes exModule) = .ok exModule [] :=
+  pmodule_lex exModule (by
+    simp (config := {decide := true}) [exModule, DeclsWF, DeclWF, ClassWF, MembersWF, MemberWF, ParentWF, FwdParentWF, TmplWF,
+      TParamsWF, TnsWF, TnWF, ArgsWF, RetWF, EnumWF, TyWF, TysWF, FirstOK, tyS, tyB, tnToTy, tnsToTys, retAsType, startsDunder,
+      Parse.toRet, pairFlag, Parse.ctorNamesOk, Parse.validOperator, CType.typename, Quals.plain, CType.isTempl]) _ (Nat.le_refl _)
 
 end WrapModel.Props.C01
